@@ -52,13 +52,17 @@ class Compiler:
         placeholders = [node for node in query.walk() if isinstance(node, ast.Placeholder)]
         if placeholders:
             names = {placeholder.name for placeholder in placeholders}
-            if all(names):
+            # Positional placeholders are numbered in place below: when
+            # a parsed statement is compiled again their names are
+            # integers, zero included, and not the empty string.
+            named = {name for name in names if isinstance(name, str) and name}
+            if named == names:
                 if not isinstance(parameters, Mapping):
                     raise TypeError('query parameters should be a mapping when using named placeholders')
                 if names - parameters.keys():
                     missing = ', '.join(sorted(names - parameters.keys()))
                     raise ProgrammingError(f'query parameter missing: {missing}')
-            elif not any(names):
+            elif not named:
                 if not isinstance(parameters, Sequence):
                     raise TypeError('query parameters should be a sequence when using positional placeholders')
                 if len(placeholders) != len(parameters):
